@@ -1,5 +1,7 @@
 import sys
 pid=sys.argv[1]
+first=int(sys.argv[2]) if len(sys.argv)>2 else 1
+last=first+2
 wt="/tmp/wt-%s"%pid.lower()
 import json
 prop=None
@@ -20,9 +22,11 @@ Task: produce THREE different, independent source changes to the library (each a
   2. still passes the existing pinned test-suite: run `cd {wt} && go test -vet=off -count=1 ./diam/ ./diam/datatype/ ./diam/dict/ ./diam/sm/smparser/ ./diam/sm/smpeer/ 2>&1 | tail -20` and compare with the result on the unmodified tree. NOTE: on the unmodified tree the packages ./diam and ./diam/sm abort at their first SCTP test (no SCTP in this sandbox) - tests that run before that point must still pass; to be safe run the non-SCTP tests explicitly, e.g. `go test -vet=off -count=1 -run 'Test[^C]|TestC[^a]' ./diam/` style filters, and make sure every test that passes on the unmodified tree still passes with your change;
   3. BREAKS the property above in a way a user could really suffer from;
   4. needs something specific to manifest: a particular interleaving, a fault at a particular point, a multi-step sequence of operations, an unusual-but-legal input (boundary value, rare type, particular length class, nesting), or two cooperating sites that each look fine alone. NOT something ordinary use would expose at once, and not something the existing tests catch. Prefer changes that look like plausible refactorings / optimisations / "fixes" a developer might really make.
+  5. The source contains one-line calls `vevent("...", ...)` (no-ops unless the build tag `verif` is set): leave every such line in place and unchanged, and do not touch files named *verif*.
+  Look beyond the first idea that comes to mind at each site: boundary arithmetic, error paths, rarely taken branches, lifetime of buffers, ordering of two statements, lock scope, channel capacity, a condition that is almost equivalent.
   Make the three changes exercise different mechanisms of the property (different anchored code sites / different clauses of the statement).
 
-For each change i in 1..3 create the directory {wt}/mutants/{pid}-m<i>/ containing:
+For each change i in {first}..{last} create the directory {wt}/mutants/{pid}-m<i>/ containing:
   - patch.diff  : `git diff` output of ONLY that change relative to the clean worktree (must apply with `git apply` on a clean checkout),
   - demo_test.go (a Go test in package diam_test or the appropriate package, to be copied into the right package directory; say which in meta.json) or demo/main.go (a small program): a demonstration that FAILS with the change applied and PASSES without it. Keep it self-contained, deterministic, fast (<10 s), and not dependent on SCTP or the network (use net.Pipe or in-memory io.Reader/Writers if a connection is needed),
   - meta.json : {{"property": "{pid}", "summary": "...what was changed...", "needs": "...what is required for the violation to manifest...", "demo": "how to run the demonstration (exact commands, where to copy the file)", "verified": "what you ran and observed with and without the change"}}.
